@@ -72,6 +72,11 @@ func itemKey(it Item) string {
 	case ref.KString:
 		return "s:" + it.Str
 	case ref.KNumber:
+		// numbers are the same item when they denote the same number in the same kind of spelling
+		// (integer / with a fraction): 1.5 and 1.50, 0 and -0
+		if d, ok := ref.ParseDecimal(it.Tok); ok {
+			return fmt.Sprintf("n:%v:%s", ref.ExampleIsInteger(it.Tok), d.Expansion())
+		}
 		return "n:" + it.Tok
 	}
 	return "l:" + it.Tok
@@ -235,6 +240,7 @@ func TestNamedEnum(t *testing.T) {
 		{Kind: ref.KFalse, Tok: "false"}, {Kind: ref.KString, Tok: `""`, Str: ""}, {Kind: ref.KString, Tok: `"a b"`, Str: "a b"}, {Kind: ref.KNumber, Tok: "100"},
 		{Kind: ref.KString, Tok: `"é"`, Str: "é"}, {Kind: ref.KString, Tok: `"\n"`, Str: "\n"}, {Kind: ref.KNumber, Tok: "0.25"}, {Kind: ref.KString, Tok: `"//x"`, Str: "//x"},
 		{Kind: ref.KString, Tok: `"a,b]"`, Str: "a,b]"}, {Kind: ref.KString, Tok: `"q\"r"`, Str: `q"r`},
+		{Kind: ref.KNumber, Tok: "1.50"}, {Kind: ref.KNumber, Tok: "0"}, {Kind: ref.KNumber, Tok: "-0"}, {Kind: ref.KNumber, Tok: "0.250"}, {Kind: ref.KNumber, Tok: "-2.0"},
 	}
 	rapid.Check(t, func(t *rapid.T) {
 		n := rapid.IntRange(0, 8).Draw(t, "n")
